@@ -16,11 +16,18 @@
 // Zone-name family (zonenames.go): every zone name the process can load x a
 // grid of probe instants x every helper, so that a tz argument that is
 // resolved to another zone than the database's shows.
+//
+// Zone-history family (zonehistory.go): one fresh process per sequence of 2-3
+// (thorough 4) tz arguments - exact names, case variants, typos, blanks,
+// prefixes/suffixes, omitted, utc, local - every helper compiled and evaluated
+// at every step, so that anything the process remembers about an earlier tz
+// argument (also a rejected one) shows in what a later supported one yields.
 package main
 
 import (
 	"encoding/json"
 	"fmt"
+	"os"
 	"sort"
 	"strconv"
 	"strings"
@@ -379,6 +386,10 @@ type Case struct {
 	Pattern string `json:"pattern,omitempty"`
 	Rot     int    `json:"garbage_alphabet_rotation,omitempty"`
 	Desc    bool   `json:"instants_in_decreasing_order,omitempty"`
+	// zone-history family: the tz arguments one fresh process compiles and evaluates the helpers with, in order
+	// (the last one is the judged step); HelperRot: which of timeformat, time, buckettime, timeattr comes first at every step
+	TZArgs    []string `json:"tz_arguments_of_the_process_in_order,omitempty"`
+	HelperRot int      `json:"helper_order_rotation,omitempty"`
 }
 
 type reporter func(sig, detail string)
@@ -687,6 +698,57 @@ func worker(w *runner.W) {
 		w.Violation(sig, detail, c)
 	}
 	perInstant := int64(len(namedFormats) + 1 + len(bucketNames) + len(attrs) + 12)
+
+	// zone-history family: one fresh process per sequence of tz arguments, see zonehistory.go
+	histSampled := false
+	stopped := false
+	histSequences(w.Quick(), func(args []string) bool {
+		caseNo++
+		if !w.Owns(caseNo) {
+			return true
+		}
+		if w.Expired() {
+			stopped = true
+			return false
+		}
+		rot := histRot(args)
+		cur = func() Case { return histCase(args, rot, len(args)-1) }
+		res, hang := runHistory(args, rot)
+		w.Add("zone_history_processes", 1)
+		if hang {
+			w.Violation("C18/zone-history/hang", fmt.Sprintf("a process that compiles and evaluates the time helpers with the tz arguments %q did not finish within 60 s", args), cur())
+			w.Eval(false)
+			return true
+		}
+		reportHistory(args, rot, res, func(sig, detail string, c Case) { w.Violation(sig, detail, c) })
+		nt, judgedAfterHistory := true, false
+		var dig []string
+		for i, st := range res.Steps {
+			w.Add("zone_history_template_evaluations", st.Evals)
+			if st.Supported {
+				w.Add("zone_history_steps_supported_zone_judged", 1)
+				nt = nt && st.Nontrivial
+				judgedAfterHistory = judgedAfterHistory || i > 0
+			} else {
+				w.Add("zone_history_steps_unsupported_spelling_not_judged", 1)
+				if st.Answer != "rejected" {
+					w.Add("zone_history_steps_unsupported_spelling_answered_with_a_value", 1)
+				}
+			}
+			dig = append(dig, st.Digest)
+		}
+		w.Eval(nt && judgedAfterHistory)
+		w.Max("zone_history_longest_sequence", int64(len(args)))
+		w.Outcome("zone-history", strings.Join(args, "\x00"), strings.Join(dig, "\x00"))
+		if !histSampled && w.WantSample() && nt && judgedAfterHistory && len(args) == 3 && !res.Steps[0].Supported {
+			histSampled = true
+			w.Sample(cur())
+		}
+		return true
+	})
+	if stopped || w.Param("family", "all") == "zone-history" { // development aid (-p family=zone-history): this family only
+		return
+	}
 
 	// zone-name family: every zone name of the database x probe instants x every helper, see zonenames.go
 	sampled := false
@@ -1050,6 +1112,21 @@ func replay(w *runner.W, raw json.RawMessage) {
 		for _, u := range seq {
 			zp.checkInstant(u, nrep)
 		}
+	case "zone-history":
+		if len(c.TZArgs) == 0 || len(c.TZArgs) > 8 {
+			return
+		}
+		res, hang := runHistory(c.TZArgs, c.HelperRot)
+		if hang {
+			w.Violation("C18/zone-history/hang", "the process did not finish within 60 s", cur)
+			return
+		}
+		// the recorded case ends with the judged step
+		for _, v := range res.Violations {
+			if v.Step == len(c.TZArgs)-1 {
+				w.Violation(v.Sig, v.Detail, cur)
+			}
+		}
 	case "parse":
 		for _, z := range zonesFor(false) {
 			if z.label != c.Zone {
@@ -1105,6 +1182,9 @@ func replay(w *runner.W, raw json.RawMessage) {
 }
 
 func main() {
+	if spec := os.Getenv(historyEnv); spec != "" {
+		historyChild(spec) // one sequence of tz arguments in a fresh process (zonehistory.go); never returns
+	}
 	runner.Main(&runner.Spec{
 		Name:       "exprtime",
 		Properties: []string{"C18"},
@@ -1130,7 +1210,12 @@ func main() {
 			if tier == "thorough" {
 				nameTrees, nameGrid, nameRoll = "including its posix/ and right/ trees", "the 15th of every month, Mar 20 and Nov 2 of every year 1970..2100", "those years and every 4th year 1972..2100 (the names of the posix/ and right/ trees: the quick tier's instants)"
 			}
-			return "zones {tz omitted, utc, Etc/GMT+5, America/New_York, Europe/Berlin, Australia/Lord_Howe, Asia/Kolkata, local(=America/St_Johns via time.Local)" + more + "} from the embedded time/tzdata x unix seconds in [1970-01-01, 2100-12-31]: " + days + " at local 00:00:00, 12:00:00, 23:59:59; +-2 s around every local month start (so every quarter and year start), " + weeks + " (Monday 00:00 local) and every change of the zone's offset/abbreviation (found by bisection over every day) x {timeformat in all 23 named formats + default; time round trip of the printed text for RUBY, RFC822Z, RFC1123Z, RFC3339, RFC3339N, NGINX with and without tz; buckettime for 23 spellings of the 7 buckets; timeattr weekday, week, yearweek, quarter}; one (zone, second) = ~75 template evaluations through BuildKey. Order of evaluation: the instants of a zone are cut into blocks of 28 consecutive enumerated instants (+4 of overlap, so every +-2 s neighbourhood lies inside a block); for every block all templates are compiled from scratch and the SAME compiled expressions are evaluated on the block in increasing and then in decreasing order (every instant is checked after its predecessor and after its successor), one case = one evaluation of an instant in such a sequence; durations likewise in blocks of consecutive values, both orders; each unparseable input is evaluated right after a parseable one on the same compiled expression. Plus durationformat/duration on whole seconds " + dur + " and a sweep to +-9223372036 (5 spellings each), and lists of unparseable inputs/arguments per helper. non-trivial = no helper returned an error marker or panicked for the (zone, second) or duration case; an unparseable-input case counts when the helper was reached and answered. PARSE FAMILY (history x configuration of every helper that reads date text through smartDateParseWrapper): per zone, windows of 5 consecutive enumerated instants (" + pwin + ") x {time; buckettime with buckets s, minutes, h, day, mo, years, nanos in rotation} x format argument {omitted, \"\", cache, auto, the named formats ANSIC UNIX RUBY RFC822 RFC822Z RFC1123 RFC1123Z RFC3339 RFC3339N NGINX, custom layouts 2006-01-02 15:04:05 | 2006-01-02T15:04:05 | 2006/01/02 15:04:05 | 01/02/2006 15:04:05 | 20060102150405 | 2006-01-02 15:04 | 2006-01-02 15:04:05 -0700 | 02/Jan/2006:15:04:05 -0700 | 2006-01-02 15:04:05 MST} x tz argument {the zone's own, omitted} x text written by the reference in 19 styles (7 without offset, 8 with numeric offset, 4 with the zone abbreviation); an explicit format gets the text of that format, the detecting modes get every style dateparse has a shape for (cache/\"\"/omitted: not the abbreviation styles); auto additionally over sequences alternating two styles A,B,A,B,A (" + ppairs + "). One case = ONE compiled expression evaluated over the window forwards and then backwards (9 evaluations), each answer compared (H) with a fresh compile of the same template evaluating only that text and (R) with the reference (numeric offset: the instant to the format's precision; no offset: an instant whose calendar fields in the tz argument's zone, UTC when omitted, are the text's; abbreviation: not constrained; a detecting mode may answer the error marker, an explicit format may not); non-trivial = every answer of the long-lived expression was a value. GARBAGE-SEQUENCE FAMILY (history of the detecting modes): per zone, " + gwin + " x {time; buckettime} x format argument {omitted, \"\", cache, auto} x tz argument {the zone's own, omitted} x every text style the mode is offered in the parse family (one layout per sequence) x every word over {V = the position's instant as a valid date, G = an entry that is not a date} of length 2..5 with one to three G and at least one V (47 words: garbage before, between and after the dates) x 12 rotations of the garbage alphabet {empty string, -, n/a, one blank, 0, 404, 12345, 99999999, -1, yesterday, hello world, the position's instant in the sequence's own style with hour 25} (the j-th G of a word is entry rotation+j, so every garbage entry stands at every G position) x " + gorder + ". One case = ONE compiled expression evaluated over the sequence forwards and then backwards; every garbage entry must yield an error marker, every valid date exactly what a fresh compile of the template answers for that text alone (garbage leaves no trace) and, when it is a value, the reference's instant/fields as in the parse family; non-trivial = every valid date of the sequence yielded a value and every garbage entry an error marker" + ". ZONE-NAME FAMILY (the tz argument over every zone NAME, not a handful of zone shapes): names = the 598 names of the IANA database 2025b compiled into the harness (Area/City, Etc/*, the legacy short names EST MST HST EST5EDT CST6CDT MST7MDT PST8PDT WET CET MET EET UTC GMT GMT+0..., country and US/* links; resolved by the embedded time/tzdata on any host) + every file of the host's zoneinfo directory (" + nameTrees + "); a name is used when time.LoadLocation(name) succeeds in this process (others are counted and not judged) x probe instants per name: " + nameGrid + " at 12:00 UTC, and, for " + nameRoll + ", local 23:30:00, 23:59:59, next day 00:00:00, 00:30:00 at the end of Mar 31, Jun 30, Sep 30, Dec 31 and of the Sunday on/after Jan 15 and Jul 15 (last/first local hour of a day, ISO week, quarter, year) x {timeformat UNIX RFC822 RFC1123Z RFC3339 NGINX DAY HOUR TIMEZONE NTZ WEEKDAY + default; time round trip of RFC1123Z RFC3339 NGINX with and without tz; time on offset-less text (2006-01-02 15:04:05, ANSIC) with the name as tz; buckettime n s minutes h day mo years on RFC3339 text; timeattr weekday week yearweek quarter} = 30 template evaluations per (name, instant); the probes of a name are cut into blocks of 64, one fresh compile per block, evaluated in increasing order; oracle: offset/abbreviation of the loaded location at the second, every field recomputed by calendar.go; signatures C18/zone-name/<class of name>/<helper>/<failure>; non-trivial as for (zone, second)"
+			histAlphabetSize := strconv.Itoa(len(histWholeAlphabet()))
+			histSeqs := "per base zone every ordered pair over all its spellings + the globals; every ordered pair over {exact, lower case} of the six bases + their related names; per base zone every triple over {exact, lower, UPPER, one more case variant, typo, omitted}"
+			if tier == "thorough" {
+				histSeqs += "; every ordered pair over the whole alphabet; per base zone every triple over those six + {blank in front, first related name, utc, local} and every 4-sequence over the six; every triple over {exact, lower, UPPER} of the six bases + {omitted, utc}"
+			}
+			return "zones {tz omitted, utc, Etc/GMT+5, America/New_York, Europe/Berlin, Australia/Lord_Howe, Asia/Kolkata, local(=America/St_Johns via time.Local)" + more + "} from the embedded time/tzdata x unix seconds in [1970-01-01, 2100-12-31]: " + days + " at local 00:00:00, 12:00:00, 23:59:59; +-2 s around every local month start (so every quarter and year start), " + weeks + " (Monday 00:00 local) and every change of the zone's offset/abbreviation (found by bisection over every day) x {timeformat in all 23 named formats + default; time round trip of the printed text for RUBY, RFC822Z, RFC1123Z, RFC3339, RFC3339N, NGINX with and without tz; buckettime for 23 spellings of the 7 buckets; timeattr weekday, week, yearweek, quarter}; one (zone, second) = ~75 template evaluations through BuildKey. Order of evaluation: the instants of a zone are cut into blocks of 28 consecutive enumerated instants (+4 of overlap, so every +-2 s neighbourhood lies inside a block); for every block all templates are compiled from scratch and the SAME compiled expressions are evaluated on the block in increasing and then in decreasing order (every instant is checked after its predecessor and after its successor), one case = one evaluation of an instant in such a sequence; durations likewise in blocks of consecutive values, both orders; each unparseable input is evaluated right after a parseable one on the same compiled expression. Plus durationformat/duration on whole seconds " + dur + " and a sweep to +-9223372036 (5 spellings each), and lists of unparseable inputs/arguments per helper. non-trivial = no helper returned an error marker or panicked for the (zone, second) or duration case; an unparseable-input case counts when the helper was reached and answered. PARSE FAMILY (history x configuration of every helper that reads date text through smartDateParseWrapper): per zone, windows of 5 consecutive enumerated instants (" + pwin + ") x {time; buckettime with buckets s, minutes, h, day, mo, years, nanos in rotation} x format argument {omitted, \"\", cache, auto, the named formats ANSIC UNIX RUBY RFC822 RFC822Z RFC1123 RFC1123Z RFC3339 RFC3339N NGINX, custom layouts 2006-01-02 15:04:05 | 2006-01-02T15:04:05 | 2006/01/02 15:04:05 | 01/02/2006 15:04:05 | 20060102150405 | 2006-01-02 15:04 | 2006-01-02 15:04:05 -0700 | 02/Jan/2006:15:04:05 -0700 | 2006-01-02 15:04:05 MST} x tz argument {the zone's own, omitted} x text written by the reference in 19 styles (7 without offset, 8 with numeric offset, 4 with the zone abbreviation); an explicit format gets the text of that format, the detecting modes get every style dateparse has a shape for (cache/\"\"/omitted: not the abbreviation styles); auto additionally over sequences alternating two styles A,B,A,B,A (" + ppairs + "). One case = ONE compiled expression evaluated over the window forwards and then backwards (9 evaluations), each answer compared (H) with a fresh compile of the same template evaluating only that text and (R) with the reference (numeric offset: the instant to the format's precision; no offset: an instant whose calendar fields in the tz argument's zone, UTC when omitted, are the text's; abbreviation: not constrained; a detecting mode may answer the error marker, an explicit format may not); non-trivial = every answer of the long-lived expression was a value. GARBAGE-SEQUENCE FAMILY (history of the detecting modes): per zone, " + gwin + " x {time; buckettime} x format argument {omitted, \"\", cache, auto} x tz argument {the zone's own, omitted} x every text style the mode is offered in the parse family (one layout per sequence) x every word over {V = the position's instant as a valid date, G = an entry that is not a date} of length 2..5 with one to three G and at least one V (47 words: garbage before, between and after the dates) x 12 rotations of the garbage alphabet {empty string, -, n/a, one blank, 0, 404, 12345, 99999999, -1, yesterday, hello world, the position's instant in the sequence's own style with hour 25} (the j-th G of a word is entry rotation+j, so every garbage entry stands at every G position) x " + gorder + ". One case = ONE compiled expression evaluated over the sequence forwards and then backwards; every garbage entry must yield an error marker, every valid date exactly what a fresh compile of the template answers for that text alone (garbage leaves no trace) and, when it is a value, the reference's instant/fields as in the parse family; non-trivial = every valid date of the sequence yielded a value and every garbage entry an error marker" + ". ZONE-NAME FAMILY (the tz argument over every zone NAME, not a handful of zone shapes): names = the 598 names of the IANA database 2025b compiled into the harness (Area/City, Etc/*, the legacy short names EST MST HST EST5EDT CST6CDT MST7MDT PST8PDT WET CET MET EET UTC GMT GMT+0..., country and US/* links; resolved by the embedded time/tzdata on any host) + every file of the host's zoneinfo directory (" + nameTrees + "); a name is used when time.LoadLocation(name) succeeds in this process (others are counted and not judged) x probe instants per name: " + nameGrid + " at 12:00 UTC, and, for " + nameRoll + ", local 23:30:00, 23:59:59, next day 00:00:00, 00:30:00 at the end of Mar 31, Jun 30, Sep 30, Dec 31 and of the Sunday on/after Jan 15 and Jul 15 (last/first local hour of a day, ISO week, quarter, year) x {timeformat UNIX RFC822 RFC1123Z RFC3339 NGINX DAY HOUR TIMEZONE NTZ WEEKDAY + default; time round trip of RFC1123Z RFC3339 NGINX with and without tz; time on offset-less text (2006-01-02 15:04:05, ANSIC) with the name as tz; buckettime n s minutes h day mo years on RFC3339 text; timeattr weekday week yearweek quarter} = 30 template evaluations per (name, instant); the probes of a name are cut into blocks of 64, one fresh compile per block, evaluated in increasing order; oracle: offset/abbreviation of the loaded location at the second, every field recomputed by calendar.go; signatures C18/zone-name/<class of name>/<helper>/<failure>; non-trivial as for (zone, second)" + ". ZONE-HISTORY FAMILY (the ORDER in which one process sees tz arguments; one case = one FRESH PROCESS - the harness re-executes itself, so package-level state of rare starts clean for every sequence - that compiles and evaluates the helpers with the tz arguments of one sequence, step by step): alphabet = per base zone of {America/New_York, Europe/Berlin, Asia/Kolkata, EST, UTC, Etc/GMT+5} the exact name, lower case, UPPER case, every path segment Title-cased, first / last path segment lower-cased, the last letter mistyped, a blank in front / behind, the last character missing, the first / the last path segment alone, and the related names of the database (the base is a prefix or suffix of them or they of it: Etc/GMT, EST5EDT, Etc/UTC), plus the globals {argument omitted, \"\", local, LOCAL, Local, utc} (" + histAlphabetSize + " arguments in all); sequences: " + histSeqs + "; at every step every helper is compiled with the step's tz argument (timeformat RFC3339 NGINX HOUR DAY + default, time round trip RFC3339 NGINX + time on offset-less text, buckettime h day, timeattr x 4; the helper compiled first rotates with a hash of the sequence) and, when the argument is supported (omitted, \"\", utc, local, or time.LoadLocation accepts it in this process), evaluated at 6 probe instants (unix 0, 2007-03-20, 2020-01-15, 2020-07-15 at 12:00 UTC, 2020-06-30 23:30 and 2021-01-01 00:30 local) against the per-instant oracle above = 96 template evaluations per judged step; a supported argument must compile and report the fields of ITS zone whatever the process saw before (fresh process == after any history; two arguments resolving to different zones are never conflated); a step with any other spelling is executed and NOT judged (only a panic is reported; how it was answered is counted); signatures C18/zone-history/<first-in-process|after-unsupported-case-variant|after-unsupported-other-spelling|after-another-supported-argument|after-supported-case-variant|after-the-same-argument>/<helper>/<supported-zone-rejected|error-marker|calendar-fields-of-another-zone>; non-trivial = a supported argument was judged after at least one earlier step and every supported step compiled and yielded values only"
 		},
 		Assumptions: func(string) []string {
 			return []string{
@@ -1142,6 +1227,7 @@ func main() {
 				"durations are claimed for |seconds| <= 9223372036 (what a 64-bit nanosecond duration holds); which layouts cache/auto detection recognises is not part of the statement: a detecting mode may answer the error marker, but must answer what a fresh compile answers and, when it answers, the right instant",
 				"parse family: the documentation declares format omitted / \"\" / cache stateful (\"The first seen date will determine the format for all dates going forward\"), so those modes are only run over texts of one shape (same style, same field widths; entries of another shape are left out of the sequence) and never over abbreviation styles; text with a zone abbreviation is judged by history independence only (the statement speaks of numeric offsets); offset-less text is read in the tz argument's zone per the documentation (\"processed as UTC, unless explicit in the datetime itself, or overridden via a parameter\"), both instants accepted where a wall clock repeats; time.Local is pinned to America/St_Johns for tz=local",
 				"zone-name family: \"supported time zone\" = a name time.LoadLocation resolves in this process (documentation: \"utc, local, or a valid IANA Time Zone\"); which zone a name denotes is taken from that lookup (host zoneinfo directory first, embedded time/tzdata otherwise), so the set of names and their rules are those of the host the check runs on; a name the database does not have is not judged (the statement does not say whether further aliases may exist); an offset that is not a whole number of minutes (Africa/Monrovia before 1972) cannot be written as a numeric offset, so the round trip and buckettime on RFC3339 text are not demanded at such instants",
+				"zone-history family: which zone a tz argument denotes is decided by package time alone (documentation: \"The following values are accepted for a tz (timezone): utc, local, or a valid IANA Time Zone\", default utc): omitted, \"\", utc -> UTC, local -> time.Local (pinned to America/St_Johns), any other text -> time.LoadLocation in the process under test, which on this host is case-sensitive (america/new_york, AMERICA/NEW_YORK, Est are not names of the database); a spelling it does not accept (also Utc, LOCAL, which rare happens to accept) is executed for what it leaves behind and not judged - neither statement nor documentation say whether it must be refused; every sequence runs in its own process, so no verdict depends on an earlier case; histories longer than 3 (thorough 4) steps, goroutines compiling concurrently and histories through a --funcs file are not covered here",
 				"garbage-sequence family: an entry that is not a date is not a \"seen date\" (documentation of cache) and is unparseable input (statement), so it must yield the error marker and leave no trace; the garbage alphabet holds only texts that are no date in any layout - texts dateparse itself reads as a date of some layout (a unix epoch number such as 1460653945, 2020, 3.14, 1.2.3.4) count as dates of ANOTHER layout and are not used; what a caching mode answers for a date of another layout after the first seen date (error marker, or a value because it detected again) is not judged in either direction: the documentation's sentence describes the shortcut, not a promise that other layouts fail - valid dates whose shape differs from the first valid date of a sequence are left out of it",
 			}
 		},
